@@ -145,12 +145,14 @@ Proof.
   destruct o as [o n v dir table t|o t n v|o t n vo|o n vo|o n vo t both|o n v]; cbn [decide].
   - unfold declare_acts. destruct (declare_plan a o n v dir table t) as [pl|e]; [|discriminate].
     destruct (o_noaction o); [intro H; inversion H; cbn; lia|].
-    rewrite declare_finish_unfold.
     assert (H1 : ndecl (declare_acts1 (o_flavor o) n v pl) <= 1).
     { unfold declare_acts1. destruct (dp_write pl); [|cbn; lia]. destruct (dp_tag pl); cbn; lia. }
-    destruct (dp_tag pl) as [x|]; [|intro H; inversion H; subst; exact H1].
-    cbv zeta. destruct (find_exact _ _ n v _) as [[s' r]|]; [|discriminate].
-    intro H. inversion H. rewrite !ndecl_app, ndecl_deltags_stacks. cbn. lia.
+    intro H. apply declare_finish_shape in H.
+    destruct (dp_tag pl) as [x|]; [|subst acts; exact H1].
+    destruct H as [rs [rs' [-> _]]].
+    change (ASetTag (dp_target pl) n x (o_flavor o) v :: map (fun r => ADelTag r n x (o_flavor o)) rs')
+      with ([ASetTag (dp_target pl) n x (o_flavor o) v] ++ map (fun r => ADelTag r n x (o_flavor o)) rs').
+    rewrite !ndecl_app, !ndecl_deltags_stacks. cbn. lia.
   - unfold assign_acts. destruct (find_exact a _ n v _) as [[s' r]|]; [|discriminate].
     intro H. inversion H. cbn. lia.
   - intro H. destruct (unassign_acts_shape _ _ _ _ _ _ H) as [->|[s ->]]; cbn; lia.
@@ -239,93 +241,99 @@ Proof.
     destruct (S2 s' n' t' f') as [E|E]; rewrite E; apply untag_undeclare_prefix.
 Qed.
 
-(* ---------------------------------------------------------------- declare: old, new, or unassigned *)
+(* ---------------------------------------------------------------- declare: old or new *)
 
-(* an action is tame for a tag key when, if it assigns that key at all, it assigns the final value *)
+(* an action is tame for a tag key when, if it writes that key at all, it gives it the final value *)
 Definition tame (fin : option str) (s n t f : str) (x : aact) : Prop :=
   match x with
   | ASetTag s' n' t' f' v' => (s', n', t', f') = (s, n, t, f) -> Some v' = fin
-  | _ => True
+  | ADelTag s' n' t' f' => (s', n', t', f') = (s, n, t, f) -> fin = None
+  | ADelDecl _ _ _ _ => False
+  | ASetDecl _ _ _ _ _ => True
   end.
 
 Lemma tame_step fin s n t f x b : tame fin s n t f x ->
-  a_tag (aapply x b) s n t f = a_tag b s n t f \/ a_tag (aapply x b) s n t f = None \/
-  a_tag (aapply x b) s n t f = fin.
+  a_tag (aapply x b) s n t f = a_tag b s n t f \/ a_tag (aapply x b) s n t f = fin.
 Proof.
   intro H. rewrite a_tag_aapply. destruct x as [s' n' v' f' r|s' n' v' f'|s' n' t' f' v'|s' n' t' f'].
   - left. reflexivity.
-  - destruct (_ && _); auto.
+  - contradiction.
   - destruct (mem_str s' (apath b)); cbn [andb]; [|left; reflexivity].
     destruct (dkey_eqb (s, n, t, f) (s', n', t', f')) eqn:E; [|left; reflexivity].
-    apply dkey_eqb_eq in E. right. right. apply H. symmetry. exact E.
-  - destruct (dkey_eqb _ _); auto.
+    apply dkey_eqb_eq in E. right. apply H. symmetry. exact E.
+  - destruct (dkey_eqb (s, n, t, f) (s', n', t', f')) eqn:E; [|left; reflexivity].
+    apply dkey_eqb_eq in E. right. symmetry. apply H. symmetry. exact E.
 Qed.
 
 Lemma tame_prefix fin s n t f acts : Forall (tame fin s n t f) acts -> forall a i,
   a_tag (aapply_all (firstn i acts) a) s n t f = a_tag a s n t f \/
-  a_tag (aapply_all (firstn i acts) a) s n t f = None \/
   a_tag (aapply_all (firstn i acts) a) s n t f = fin.
 Proof.
   induction 1 as [|x acts Hx _ IH]; intros a i.
   - rewrite firstn_nil. left. reflexivity.
   - destruct i as [|i]; [left; reflexivity|]. cbn [firstn]. rewrite aapply_all_cons.
-    destruct (IH (aapply x a) i) as [E|[E|E]]; rewrite E; auto.
+    destruct (IH (aapply x a) i) as [E|E]; rewrite E; auto.
     apply tame_step. exact Hx.
 Qed.
 
-Lemma declare_shape p a o n v dir table t acts : decide p a (Declare o n v dir table t) = Ok acts ->
-  Forall not_settag acts \/
-  exists tg x P, acts = P ++ [ASetTag tg n x (o_flavor o) v] /\ mem_str tg (apath a) = true /\
-    Forall (fun y => not_settag y \/ y = ASetTag tg n x (o_flavor o) v) P.
+(* the repaired tag move: the one assignment gives the target stack's key its final value, and each
+   removal (in another stack) is final too *)
+Lemma declare_tame a o n v dir table t acts : decide false a (Declare o n v dir table t) = Ok acts ->
+  forall s n' t' f', Forall (tame (a_tag (aapply_all acts a) s n' t' f') s n' t' f') acts.
 Proof.
   cbn [decide]. unfold declare_acts. destruct (declare_plan a o n v dir table t) as [pl|e] eqn:Ep; [|discriminate].
-  destruct (o_noaction o); [intro H; inversion H; left; constructor|].
+  destruct (o_noaction o); [intro H; inversion H; constructor|].
   destruct (declare_plan_target _ _ _ _ _ _ _ _ Ep) as [Hm _].
-  rewrite declare_finish_unfold. destruct (dp_tag pl) as [x|] eqn:Ex.
-  - cbv zeta. destruct (find_exact _ _ n v _) as [[s' r]|] eqn:Ef; [|discriminate].
-    intro H. inversion H. subst acts. right.
-    apply find_exact_some in Ef. destruct Ef as [Hin _].
-    assert (s' = dp_target pl) by (destruct Hin as [<-|[<-|[]]]; reflexivity). subst s'.
-    exists (dp_target pl), x, (declare_acts1 (o_flavor o) n v pl ++
-                               map (fun r0 => ADelTag r0 n x (o_flavor o))
-                                 (occurrences p (aapply_all (declare_acts1 (o_flavor o) n v pl) a) n x (o_flavor o))).
-    split; [rewrite <- app_assoc; reflexivity|]. split; [exact Hm|].
-    apply Forall_app. split.
-    + unfold declare_acts1. destruct (dp_write pl); [|constructor]. rewrite Ex.
-      constructor; [left; exact I|]. constructor; [right; reflexivity|constructor].
-    + apply Forall_forall. intros y Hy. apply in_map_iff in Hy. destruct Hy as [r0 [<- _]]. left. exact I.
-  - intro H. inversion H. left. unfold declare_acts1. destruct (dp_write pl); [|constructor]. rewrite Ex.
-    repeat constructor.
+  set (f := o_flavor o). rewrite declare_finish_new_unfold. destruct (dp_tag pl) as [x|] eqn:Ex.
+  2:{ intro H. inversion H. intros. unfold declare_acts1. rewrite Ex.
+      destruct (dp_write pl); repeat constructor. }
+  cbv zeta. set (acts1 := declare_acts1 f n v pl). set (a1 := aapply_all acts1 a).
+  destruct (find_exact a1 _ n v f) as [[s' r]|] eqn:Ef; [|discriminate].
+  apply find_exact_some in Ef. destruct Ef as [Hin _].
+  assert (s' = dp_target pl) by (destruct Hin as [<-|[<-|[]]]; reflexivity). subst s'. clear Hin.
+  set (tg := dp_target pl) in *. set (a2 := aapply (ASetTag tg n x f v) a1).
+  set (rs := other_occurrences a2 tg n x f).
+  intro H. inversion H. subst acts. clear H. intros s n' t' f'.
+  assert (Hp1 : apath a1 = apath a) by (unfold a1; apply apath_aapply_all).
+  (* the final value of every key *)
+  assert (Fin : forall s0 n0 t0 f0,
+            a_tag (aapply_all (acts1 ++ ASetTag tg n x f v :: map (fun r0 => ADelTag r0 n x f) rs) a) s0 n0 t0 f0 =
+            if mem_str s0 rs && str_eqb n0 n && str_eqb t0 x && str_eqb f0 f then None
+            else if dkey_eqb (s0, n0, t0, f0) (tg, n, x, f) then Some v else a_tag a1 s0 n0 t0 f0).
+  { intros. rewrite aapply_all_app. fold a1. rewrite aapply_all_cons. fold a2. rewrite deltags_spec.
+    unfold a2. rewrite a_tag_aapply, Hp1, Hm. reflexivity. }
+  assert (Hrs : mem_str tg rs = false).
+  { unfold rs, other_occurrences. rewrite mem_filter_str, str_eqb_refl. cbn [negb andb].
+    apply andb_false_r. }
+  assert (Hset : tame (a_tag (aapply_all (acts1 ++ ASetTag tg n x f v :: map (fun r0 => ADelTag r0 n x f) rs) a)
+                         s n' t' f') s n' t' f' (ASetTag tg n x f v)).
+  { cbn [tame]. intro K. inversion K. subst s n' t' f'. rewrite Fin, Hrs, dkey_eqb_refl. reflexivity. }
+  assert (Hdel : Forall (tame (a_tag (aapply_all (acts1 ++ ASetTag tg n x f v :: map (fun r0 => ADelTag r0 n x f) rs) a)
+                                 s n' t' f') s n' t' f') (map (fun r0 => ADelTag r0 n x f) rs)).
+  { apply Forall_forall. intros y Hy. apply in_map_iff in Hy. destruct Hy as [r0 [<- Hr0]].
+    cbn [tame]. intro K. inversion K. subst s n' t' f'. rewrite Fin.
+    apply mem_str_In in Hr0. rewrite Hr0, !str_eqb_refl. reflexivity. }
+  clear Fin. revert Hset Hdel.
+  generalize (a_tag (aapply_all (acts1 ++ ASetTag tg n x f v :: map (fun r0 => ADelTag r0 n x f) rs) a) s n' t' f').
+  intros fin Hset Hdel.
+  apply Forall_app. split.
+  - unfold acts1, declare_acts1. destruct (dp_write pl); [|constructor]. rewrite Ex.
+    constructor; [exact I|]. constructor; [exact Hset|constructor].
+  - constructor; [exact Hset|exact Hdel].
 Qed.
 
-Lemma not_settag_tame fin s n t f x : not_settag x -> tame fin s n t f x.
-Proof. destruct x; cbn; auto. contradiction. Qed.
-
-(* every tag assignment, at every crash point of every command: its old value, its new value, or unassigned *)
-Lemma crash_tag_three f d o es k d' : crash_point f d o es k d' ->
-  forall s n t fl, a_tag (view d') s n t fl = a_tag (view d) s n t fl \/
-                   a_tag (view d') s n t fl = a_tag (view (apply es d)) s n t fl \/
-                   a_tag (view d') s n t fl = None.
+(* every declaration and every tag assignment, at every crash point of every command: its value before the
+   command or its value after the completed command *)
+Lemma crash_old_or_new f d o es k d' : crash_point f d o es k d' ->
+  same_or (view d') (view d) (view (apply es d)).
 Proof.
-  intros C s n t fl. destruct (is_declare o) eqn:Hd.
-  2:{ destruct (crash_not_declare _ _ _ _ _ _ C Hd) as [_ S2]. destruct (S2 s n t fl); auto. }
+  intros C. destruct (is_declare o) eqn:Hd; [|apply (crash_not_declare _ _ _ _ _ _ C Hd)].
+  split; [apply (crash_decl_old_or_new_gen _ _ _ _ _ _ C)|]. intros s n t fl.
   destruct (crash_between _ _ _ _ _ _ C) as [acts [i [Hdec [_ [_ S2]]]]].
   assert (Hes : es = compile_all d acts).
   { destruct C as [_ _ He _]. unfold effects, effects_gen in He. rewrite Hdec in He. inversion He. reflexivity. }
   subst es. destruct (completed_view d acts) as [_ [_ Hc]]. rewrite Hc.
-  set (fin := a_tag (aapply_all acts (view d)) s n t fl).
-  assert (T : Forall (tame fin s n t fl) acts).
-  { destruct o as [o n0 v dir table t0| | | | | ]; try discriminate.
-    destruct (declare_shape _ _ _ _ _ _ _ _ _ Hdec) as [Hns|[tg [x [P [E [Hm HP]]]]]].
-    - eapply Forall_impl; [|exact Hns]. intros y. apply not_settag_tame.
-    - assert (Hfin : forall y, y = ASetTag tg n0 x (o_flavor o) v -> tame fin s n t fl y).
-      { intros y ->. cbn. intro K. unfold fin. rewrite E, aapply_all_app.
-        cbn [aapply_all fold_left]. rewrite a_tag_aapply, apath_aapply_all, Hm. cbn [andb].
-        rewrite <- K, dkey_eqb_refl. reflexivity. }
-      rewrite E. apply Forall_app. split.
-      + eapply Forall_impl; [|exact HP]. intros y [Hy|Hy]; [apply not_settag_tame; exact Hy|apply Hfin; exact Hy].
-      + constructor; [apply Hfin; reflexivity|constructor]. }
-  destruct (S2 s n t fl) as [E|E]; rewrite E.
-  - destruct (tame_prefix fin s n t fl acts T (view d) i) as [K|[K|K]]; auto.
-  - destruct (tame_prefix fin s n t fl acts T (view d) (S i)) as [K|[K|K]]; auto.
+  destruct o as [o n0 v dir table t0| | | | | ]; try discriminate.
+  pose proof (declare_tame _ _ _ _ _ _ _ _ Hdec s n t fl) as T.
+  destruct (S2 s n t fl) as [E|E]; rewrite E; apply (tame_prefix _ _ _ _ _ _ T).
 Qed.
